@@ -70,9 +70,9 @@ def to_jsonable(obj):
         return bool(obj)
     if isinstance(obj, float):
         if math.isnan(obj):
-            return "NaN"
+            return {"__nonfinite__": "nan"}
         if math.isinf(obj):
-            return "Infinity" if obj > 0 else "-Infinity"
+            return {"__nonfinite__": "inf" if obj > 0 else "-inf"}
         return obj
     if isinstance(obj, complex):
         return [obj.real, obj.imag]
@@ -82,17 +82,13 @@ def to_jsonable(obj):
 
 
 def revive(obj):
-    """Inverse of to_jsonable for the non-finite floats it writes as strings (cases read back from replay files)."""
+    """Inverse of to_jsonable for the non-finite floats it writes as {"__nonfinite__": ...} (strict JSON has no inf)."""
     if isinstance(obj, dict):
+        if set(obj) == {"__nonfinite__"}:
+            return float(obj["__nonfinite__"])
         return {k: revive(v) for k, v in obj.items()}
     if isinstance(obj, list):
         return [revive(v) for v in obj]
-    if obj == "Infinity":
-        return math.inf
-    if obj == "-Infinity":
-        return -math.inf
-    if obj == "NaN":
-        return math.nan
     return obj
 
 
